@@ -911,6 +911,12 @@ def hErsReconcile (inp out : Json) : Except String Findings := do
   -- outside the canary list (count of the proven plan: C02_count_bridge / C04_active_serves_rest)
   let fs := spec fs "C04.active-serves-rest" (role != "active" || canaryNodes.isEmpty || faulted || o.kind != "ok" ||
       decide (o.creates.length ≥ m.creates.length))
+  -- C02 "every eligible node [ends up running] exactly one Ready pod": a fault-free sync of the active or canary
+  -- role issues the creations its plan owes (count of the proven plan: C04_active_serves_rest_sync /
+  -- rollingPlan_create_take) — also on nodes whose override annotation is malformed (the override is skipped,
+  -- the pod is still created)
+  let fs := spec fs "C02.sync-creates-owed-pods" (role == "unknown" || faulted || o.kind != "ok" ||
+      decide (o.creates.length ≥ m.creates.length))
   let fs := spec fs "C04.unknown-inert" (role != "unknown" || (o.creates.isEmpty && o.deleted.isEmpty && o.labelAdds.isEmpty && o.labelRemoves.isEmpty))
   -- C04 "pods of the canary replica set on canary nodes carry the canary label during the canary" —
   -- paused or failed canaries included: a full canary sync (not throttled, no early error, no injected
